@@ -14,6 +14,7 @@ import ScnrVerif.Model.Agree
 import ScnrVerif.Model.Registry
 import ScnrVerif.Model.DotText
 import ScnrVerif.Model.JsonText
+import ScnrVerif.Model.CacheKey
 import Std.Data.HashMap
 /-!
 # Line-protocol driver for the executable model (`lake exe scnr_model < case.in`)
@@ -1050,6 +1051,16 @@ def step (st : DState) (line : String) : DState × Option String :=
         | some ms => "jde" ++ showJson (toJsonModes ms)
         | none => "jde err"
       | none => "jde err"))
+  | "keyeq" :: r =>
+    (st, some (match parseJsonToks r with
+      | some (ja, r2) =>
+        match parseJsonToks r2 with
+        | some (jb, []) =>
+          match fromJsonModes ja, fromJsonModes jb with
+          | some a, some b => if keyEq a b then "keyeq true" else "keyeq false"
+          | _, _ => "keyeq err"
+        | _ => "bad-op"
+      | none => "bad-op"))
   | "jde" :: r =>
     (st, some (match parseJsonToks r with
       | some (j, []) =>
